@@ -124,7 +124,8 @@ Proof.
     assert (0 < 2 ^ (d_e d + K)) by (apply Z.pow_pos_nonneg; lia).
     set (j := 2 ^ (d_e d + K)) in *. rewrite Hj.
     replace (to12 d * (b * j) - d_m d * j * 10 ^ 12) with ((to12 d * b - d_m d * 10 ^ 12) * j) by ring.
-    rewrite Z.abs_mul, (Z.abs_eq j) by lia. nia.
+    rewrite Z.abs_mul, (Z.abs_eq j) by lia.
+    rewrite Z.mul_assoc. apply Z.mul_le_mono_nonneg_r; lia.
   - rewrite (Hp Hge). rewrite Z.pow_add_r by lia.
     replace (_ - _) with 0 by ring. simpl Z.abs. lia.
 Qed.
@@ -132,6 +133,11 @@ Qed.
 (* ================================================================== *)
 (* 3. decimal -> nearest 53-bit value                                  *)
 (* ================================================================== *)
+
+Lemma pow2_plus1 x : 0 <= x -> 2 ^ (x + 1) = 2 * 2 ^ x.
+Proof. intros. rewrite Z.pow_add_r by lia. change (2 ^ 1) with 2. ring. Qed.
+Lemma pow2_plus2 x : 0 <= x -> 2 ^ (x + 2) = 4 * 2 ^ x.
+Proof. intros. rewrite Z.pow_add_r by lia. change (2 ^ 2) with 4. ring. Qed.
 
 Lemma den_pos k e : 0 < den k e.
 Proof.
@@ -287,25 +293,27 @@ Proof.
     destruct (numden_scaled N k w K) as (c' & Hc' & Hn' & Hd'); [lia|lia|].
     set (T := 10 ^ Z.of_nat k) in *. set (W := N * 2 ^ K) in *.
     assert (HT : 0 < T) by (apply Z.pow_pos_nonneg; lia).
-    assert (S1 : 2 ^ 52 * (den k w * c') <= num N w * c') by nia.
-    assert (S2 : num N w * c' < 2 ^ 53 * (den k w * c')) by nia.
+    assert (S1 : 2 ^ 52 * (den k w * c') <= num N w * c')
+      by (rewrite Z.mul_assoc; apply Z.mul_le_mono_nonneg_r; lia).
+    assert (S2 : num N w * c' < 2 ^ 53 * (den k w * c'))
+      by (rewrite Z.mul_assoc; apply Z.mul_lt_mono_pos_r; lia).
     assert (S3 : (2 ^ 53 - 1) * (den k e * c) <= 2 * (num N e * c)).
     { assert (2 ^ 52 * den k e <= m * den k e) by (apply Z.mul_le_mono_nonneg_r; lia).
-      assert ((2 ^ 53 - 1) * den k e <= 2 * num N e) by lia. nia. }
+      assert ((2 ^ 53 - 1) * den k e <= 2 * num N e) by lia.
+      rewrite !Z.mul_assoc; apply Z.mul_le_mono_nonneg_r; lia. }
     assert (S4 : 2 * (num N e * c) <= (2 ^ 54 - 1) * (den k e * c)).
     { assert (m * den k e <= (2 ^ 53 - 1) * den k e) by (apply Z.mul_le_mono_nonneg_r; lia).
-      assert (2 * num N e <= (2 ^ 54 - 1) * den k e) by lia. nia. }
+      assert (2 * num N e <= (2 ^ 54 - 1) * den k e) by lia.
+      rewrite !Z.mul_assoc; apply Z.mul_le_mono_nonneg_r; lia. }
     rewrite Hn, Hd in S3, S4. rewrite Hn', Hd' in S1, S2.
     assert (~ (w + 2 <= e)).
     { intro. assert (4 * 2 ^ (w + K) <= 2 ^ (e + K)).
-      { replace (4 * 2 ^ (w + K)) with (2 ^ (w + 2 + K)) by (rewrite !Z.pow_add_r by lia; ring).
-        apply Z.pow_le_mono_r; lia. }
+      { rewrite <- pow2_plus2 by lia. apply Z.pow_le_mono_r; lia. }
       assert (T * (4 * 2 ^ (w + K)) <= T * 2 ^ (e + K)) by (apply Z.mul_le_mono_nonneg_l; lia).
       assert (0 < T * 2 ^ (w + K)) by (apply Z.mul_pos_pos; [lia|apply Z.pow_pos_nonneg; lia]). lia. }
     assert (~ (e <= w - 1)).
     { intro. assert (2 * 2 ^ (e + K) <= 2 ^ (w + K)).
-      { replace (2 * 2 ^ (e + K)) with (2 ^ (e + 1 + K)) by (rewrite !Z.pow_add_r by lia; ring).
-        apply Z.pow_le_mono_r; lia. }
+      { rewrite <- pow2_plus1 by lia. apply Z.pow_le_mono_r; lia. }
       assert (T * (2 * 2 ^ (e + K)) <= T * 2 ^ (w + K)) by (apply Z.mul_le_mono_nonneg_l; lia).
       assert (0 < T * 2 ^ (e + K)) by (apply Z.mul_pos_pos; [lia|apply Z.pow_pos_nonneg; lia]). lia. }
     lia. }
@@ -321,9 +329,8 @@ Proof.
         assert ((2 ^ 52 + 1) * den k w <= m * den k w) by (apply Z.mul_le_mono_nonneg_r; lia). lia. }
     subst m.
     assert (R : rhe (num N w) (den k w) = 2 ^ 53).
-    { apply rhe_unique; auto.
-      - destruct (numden_step N k w) as [(A & B)|(A & B)]; rewrite B in *; rewrite A in *; lia.
-      - intros _. reflexivity. }
+    { apply rhe_unique; [exact Hdw| |intros _; reflexivity].
+      destruct (numden_step N k w) as [(A & B)|(A & B)]; rewrite B in *; rewrite A in *; lia. }
     rewrite R. rewrite Z.eqb_refl. reflexivity.
 Qed.
 
@@ -341,7 +348,8 @@ Proof.
   replace (2 ^ (e + K) * 10 ^ Z.of_nat k) with (10 ^ Z.of_nat k * 2 ^ (e + K)) by ring.
   rewrite <- Hn, <- Hd.
   replace (m * (den k e * c) - num N e * c) with ((m * den k e - num N e) * c) by ring.
-  rewrite Z.abs_mul, (Z.abs_eq c) by lia. nia.
+  rewrite Z.abs_mul, (Z.abs_eq c) by lia.
+  rewrite Z.mul_assoc. apply Z.mul_le_mono_nonneg_r; lia.
 Qed.
 
 (* the result is a binary64 normal number in the range of the 12-decimal
@@ -356,4 +364,705 @@ Proof.
   { unfold work_exp. change (Z.log2 (10 ^ Z.of_nat 12)) with 39.
     destruct (_ <? _); [left|right]; lia. }
   destruct (_ =? _); cbn [d_e]; lia.
+Qed.
+
+(* ================================================================== *)
+(* 4. write then read one value                                        *)
+(* ================================================================== *)
+
+(* what comes back when the value x is written with 12 decimals and parsed *)
+Definition reread (x : dyadic) : dyadic := nearest53 (d_neg x, to12 x, 12%nat).
+
+(* |d| * 2^K, an integer when d_e d + K >= 0 *)
+Definition mag (K : Z) (d : dyadic) : Z := d_m d * 2 ^ (d_e d + K).
+
+(* K is a common scale for x and y *)
+Definition scale_ok (K : Z) (x y : dyadic) : Prop := 0 <= K /\ 0 <= d_e x + K /\ 0 <= d_e y + K.
+
+Lemma reread_correct x : wf x ->
+  d_neg (reread x) = d_neg x /\
+  ((to12 x = 0 /\ reread x = mkd (d_neg x) 0 0) \/
+   (0 < to12 x /\ is_nearest53 (to12 x) 12 (d_m (reread x)) (d_e (reread x)))).
+Proof.
+  intros H. pose proof (to12_nonneg x H) as H0. unfold reread.
+  destruct (Z.eq_dec (to12 x) 0) as [E|E].
+  - rewrite nearest53_zero by lia. cbn. auto.
+  - destruct (nearest53_correct (d_neg x) (to12 x) 12) as [A B]; [lia|]. split; [exact A|]. right. split; [lia|exact B].
+Qed.
+
+(* roundtrip_bound:   | read(write x) - x |  <=  5*10^-13 + ulp(read value)/2
+   multiplied by 2 * 10^12 * 2^K (K any common scale), with r = reread x:
+      2 * 10^12 * | |r| 2^K - |x| 2^K |  <=  2^K  +  10^12 * 2^(d_e r + K);
+   the sign is preserved, so the same holds for the signed values. *)
+Theorem roundtrip_bound x K : wf x -> scale_ok K x (reread x) ->
+  d_neg (reread x) = d_neg x /\
+  2 * 10 ^ 12 * Z.abs (mag K (reread x) - mag K x) <= 2 ^ K + 10 ^ 12 * 2 ^ (d_e (reread x) + K).
+Proof.
+  intros H (HK & HxK & HrK). destruct (reread_correct x H) as [Hs Hc]. split; [exact Hs|].
+  pose proof (to12_scaled x K HK HxK) as Hp. unfold mag.
+  assert (0 < 2 ^ K) by (apply Z.pow_pos_nonneg; lia).
+  destruct Hc as [(E0 & Er)|(Hpos & Hn)].
+  - rewrite Er in *. cbn [d_m d_e] in *. rewrite E0 in Hp.
+    assert (0 < 2 ^ (0 + K)) by (apply Z.pow_pos_nonneg; lia). lia.
+  - pose proof (is_nearest53_scaled _ _ _ _ K HK HrK Hn) as Hq.
+    change (Z.of_nat 12) with 12 in Hq. lia.
+Qed.
+
+(* the excess over 5*10^-13 is at most half an ulp of the value read back:
+      2 * 10^12 * 2^K * ( |r - x| - 5*10^-13 )  <=  10^12 * 2^K * 2^(d_e r) *)
+Theorem excess_at_most_half_ulp x K : wf x -> scale_ok K x (reread x) ->
+  2 * 10 ^ 12 * Z.abs (mag K (reread x) - mag K x) - 2 ^ K <= 10 ^ 12 * 2 ^ (d_e (reread x) + K).
+Proof. intros H HK. destruct (roundtrip_bound x K H HK) as [_ B]. lia. Qed.
+
+(* the value read back is a binary64 normal number or zero *)
+Lemma reread_is_binary64 x : wf x -> to12 x < 2 ^ 1000 ->
+  (d_m (reread x) = 0 \/ (norm53 (reread x) /\ - 1074 <= d_e (reread x) <= 971)).
+Proof.
+  intros H Hlt. destruct (reread_correct x H) as [_ [(E0 & Er)|(Hpos & Hn)]].
+  - left. rewrite Er. reflexivity.
+  - right. split; [exact (proj1 Hn)|]. unfold reread. apply nearest53_exponent_range; auto.
+Qed.
+
+(* roundtrip_exact_when_coarse: if the spacing 2^e of the doubles around x
+   exceeds 10^-12 (e >= -39, i.e. |x| >= 2^13 = 8192: 2^-39 = 1.8e-12), the
+   printed decimal is closer to x than to any other double and parsing
+   returns x itself. *)
+Theorem roundtrip_exact_when_coarse x : norm53 x -> - 39 <= d_e x -> reread x = x.
+Proof.
+  destruct x as [s m e]. unfold norm53, reread. cbn [d_neg d_m d_e]. intros Hm He.
+  pose proof (fmt12_error (mkd s m e)) as [Hn Hp]. cbn [d_m d_e] in Hn, Hp. set (x := mkd s m e) in *.
+  assert (Hwf : wf x) by (unfold wf; cbn; lia).
+  destruct (Z_lt_le_dec e 0) as [Hlt|Hge].
+  - specialize (Hn Hlt). set (b := 2 ^ (- e)) in *.
+    assert (Hb1 : 0 < b) by (apply Z.pow_pos_nonneg; lia).
+    assert (Hb2 : b <= 2 ^ 39) by (apply Z.pow_le_mono_r; lia).
+    assert (HN : 0 < to12 x).
+    { pose proof (to12_nonneg x Hwf). assert (~ (to12 x = 0)); [|lia]. intro E. rewrite E in Hn. lia. }
+    apply nearest53_unique; auto. unfold is_nearest53, num, den.
+    rewrite (Z.max_r 0 (- e)), (Z.max_l 0 e), Z.pow_0_r by lia. fold b.
+    change (Z.of_nat 12) with 12.
+    split; [lia|]. split; [lia|]. split; [intros; lia|].
+    intros -> Hlow. exfalso.
+    assert (Hx : to12 x = 2 ^ (52 + e) * 10 ^ 12).
+    { unfold to12, x. cbn [d_m d_e]. destruct (0 <=? e) eqn:E; [apply Z.leb_le in E; lia|].
+      apply rhe_exact; [apply Z.pow_pos_nonneg; lia|].
+      replace (2 ^ 52) with (2 ^ (52 + e) * 2 ^ (- e)) by (rewrite <- Z.pow_add_r by lia; f_equal; lia). ring. }
+    rewrite Hx in Hlow.
+    replace (2 ^ (52 + e) * 10 ^ 12 * b) with (2 ^ 52 * 10 ^ 12) in Hlow; [lia|].
+    unfold b. replace (2 ^ 52) with (2 ^ (52 + e) * 2 ^ (- e)) by (rewrite <- Z.pow_add_r by lia; f_equal; lia). ring.
+  - specialize (Hp Hge). assert (0 < 2 ^ e) by (apply Z.pow_pos_nonneg; lia).
+    assert (HN : 0 < to12 x) by (rewrite Hp; nia).
+    apply nearest53_unique; auto. unfold is_nearest53, num, den.
+    rewrite (Z.max_l 0 (- e)), (Z.max_r 0 e), Z.pow_0_r by lia.
+    change (Z.of_nat 12) with 12. rewrite Hp.
+    replace (m * (10 ^ 12 * 2 ^ e) - m * 2 ^ e * 10 ^ 12 * 1) with 0 by ring.
+    replace (m * 2 ^ e * 10 ^ 12 * 1) with (m * (10 ^ 12 * 2 ^ e)) by ring.
+    cbn [Z.abs]. split; [lia|]. split; [lia|]. split; intros; lia.
+Qed.
+
+(* is_nearest53 does not depend on how the decimal is written:
+   N/10^k = (N*10^j)/10^(k+j) *)
+Lemma is_nearest53_rescale N m e : is_nearest53 N 2 m e -> is_nearest53 (N * 10 ^ 10) 12 m e.
+Proof.
+  unfold is_nearest53. intros (A & B & C & D).
+  assert (E1 : num (N * 10 ^ 10) e = 10 ^ 10 * num N e) by (unfold num; ring).
+  assert (E2 : den 12 e = 10 ^ 10 * den 2 e).
+  { unfold den. change (10 ^ Z.of_nat 12) with (10 ^ 10 * 10 ^ Z.of_nat 2). ring. }
+  rewrite E1, E2. set (Dn := den 2 e) in *. set (Nn := num N e) in *.
+  replace (m * (10 ^ 10 * Dn) - 10 ^ 10 * Nn) with (10 ^ 10 * (m * Dn - Nn)) by ring.
+  rewrite Z.abs_mul. change (Z.abs (10 ^ 10)) with (10 ^ 10).
+  split; [exact A|]. split; [lia|]. split; [intros; apply C; lia|]. intros; lia.
+Qed.
+
+(* reingest_grid_exact: the binary64 nearest to n/100 (a point of the 0.01 grid
+   of the merged S(Q)) survives write + read unchanged, for EVERY n >= 0 (so in
+   particular for 0 <= n <= 10^8) and either sign.
+   Two cases: spacing > 10^-12 (coarse, above), or spacing <= 2^-40 < 10^-12:
+   then |x - n/100| <= 2^-41 < 5*10^-13, the 12-digit rendering of x is exactly
+   n/100 ("dd.dd0000000000") and parsing that gives nearest53(n/100) = x. *)
+Theorem reingest_grid_exact s n : 0 <= n ->
+  reread (nearest53 (s, n, 2%nat)) = nearest53 (s, n, 2%nat).
+Proof.
+  intros Hn. destruct (Z.eq_dec n 0) as [->|Hn0]; [reflexivity|].
+  destruct (nearest53_correct s n 2) as [Hs Hnear]; [lia|].
+  destruct (nearest53 (s, n, 2%nat)) as [s' m e] eqn:Ed. cbn [d_neg d_m d_e] in *. subst s'.
+  destruct (Z_lt_le_dec e (- 39)) as [Hfine|Hcoarse].
+  - unfold reread. cbn [d_neg].
+    assert (Ht : to12 (mkd s m e) = n * 10 ^ 10).
+    { unfold to12. cbn [d_m d_e]. destruct (0 <=? e) eqn:E; [apply Z.leb_le in E; lia|].
+      destruct Hnear as (Hm & Hb & _). unfold num, den in Hb.
+      rewrite (Z.max_r 0 (- e)), (Z.max_l 0 e), Z.pow_0_r in Hb by lia.
+      change (10 ^ Z.of_nat 2) with 100 in Hb.
+      assert (Hbig : 2 ^ 40 <= 2 ^ (- e)) by (apply Z.pow_le_mono_r; lia).
+      set (b := 2 ^ (- e)) in *.
+      apply rhe_unique; [lia| |]; lia. }
+    rewrite Ht. apply nearest53_unique; [lia|]. apply is_nearest53_rescale. exact Hnear.
+  - apply roundtrip_exact_when_coarse; [exact (proj1 Hnear)|cbn; lia].
+Qed.
+
+(* literal_5e13_refuted: "within 5e-13" is FALSE for the value read back.
+   Witness 1: x = 0x1.9f93b119869a8p+0 = 7310906511354280 * 2^-52 (1.6233...);
+   it is printed as 1.623347347958 (4.99999987e-13 below a print tie) and the
+   double nearest to that text is 0x1.9f93b11987274p+0, 5.00044e-13 from x.
+   Common scale K = 52:   2 * 10^12 * | r 2^52 - x 2^52 |  >  2^52. *)
+Definition witness1 : dyadic := mkd false 7310906511354280 (-52).
+Definition witness1_back : dyadic := mkd false 7310906511356532 (-52).
+
+Theorem literal_5e13_refuted :
+  exists d, b64 d /\ d_m d <= 10 ^ 6 * 2 ^ (- d_e d) (* |d| <= 10^6 *) /\
+    read_values (write_file [d] [d]) = Some ([reread d], [reread d]) /\
+    scale_ok 52 d (reread d) /\
+    2 * 10 ^ 12 * Z.abs (mag 52 (reread d) - mag 52 d) > 2 ^ 52.
+Proof.
+  exists witness1. unfold b64, scale_ok.
+  assert (E : reread witness1 = witness1_back) by (vm_compute; reflexivity).
+  rewrite E. split; [|split; [|split; [|split]]].
+  - vm_compute. split; congruence.
+  - vm_compute. congruence.
+  - vm_compute. reflexivity.
+  - vm_compute. repeat split; congruence.
+  - vm_compute. reflexivity.
+Qed.
+
+(* Witness 2 (worst case, a full ulp): x = 0x1.b0ffa3bab6c39p+12 =
+   7617391788518457 * 2^-40 (6927.977...), where the spacing 2^-40 = 9.09e-13
+   is below 10^-12; the text 6927.977472986146 parses to the NEXT double below,
+   so the error is one ulp = 9.09e-13 = 1.82 * 5e-13. *)
+Definition witness2 : dyadic := mkd false 7617391788518457 (-40).
+
+Theorem literal_5e13_refuted_by_one_ulp :
+  b64 witness2 /\ reread witness2 = mkd false 7617391788518456 (-40) /\
+  2 * 10 ^ 12 * Z.abs (mag 40 (reread witness2) - mag 40 witness2) > 2 ^ 40.
+Proof.
+  split; [vm_compute; split; congruence|]. split; vm_compute; reflexivity.
+Qed.
+
+(* ================================================================== *)
+(* 5. the text: rendering and parsing                                  *)
+(* ================================================================== *)
+
+Lemma app_assoc_s (a b c : string) : ((a ++ b) ++ c = a ++ (b ++ c))%string.
+Proof. induction a; cbn; congruence. Qed.
+
+Fixpoint str_all (p : ascii -> bool) (s : string) : bool :=
+  match s with
+  | EmptyString => true
+  | String c r => p c && str_all p r
+  end.
+
+Lemma str_all_app p a b : str_all p (a ++ b)%string = str_all p a && str_all p b.
+Proof. induction a; cbn; [reflexivity|]. rewrite IHa. apply andb_assoc. Qed.
+
+Lemma str_all_impl (p q : ascii -> bool) s :
+  (forall c, p c = true -> q c = true) -> str_all p s = true -> str_all q s = true.
+Proof.
+  intros H. induction s; cbn; [auto|]. intros E. apply andb_true_iff in E as [E1 E2].
+  rewrite (H _ E1), (IHs E2). reflexivity.
+Qed.
+
+Definition is_dig (c : ascii) : bool := match digit_of c with Some _ => true | None => false end.
+(* characters of a rendered number *)
+Definition numc (c : ascii) : bool := (is_dig c || (c =? "-") || (c =? "."))%char.
+(* characters of a data row (without its newline) *)
+Definition linec (c : ascii) : bool := (numc c || (c =? " "))%char.
+Definition nonl (c : ascii) : bool := negb (c =? nl)%char.
+Definition nohash (c : ascii) : bool := negb (c =? "#")%char.
+Definition nosp (c : ascii) : bool := negb (is_space c).
+
+Lemma numc_props c : numc c = true -> nosp c = true /\ nohash c = true /\ nonl c = true.
+Proof.
+  destruct c as [[] [] [] [] [] [] [] []]; vm_compute; intros H; try discriminate H; repeat split; reflexivity.
+Qed.
+
+Lemma linec_props c : linec c = true -> nohash c = true /\ nonl c = true.
+Proof.
+  destruct c as [[] [] [] [] [] [] [] []]; vm_compute; intros H; try discriminate H; repeat split; reflexivity.
+Qed.
+
+Lemma digit_char_spec d : 0 <= d <= 9 ->
+  digit_of (digit_char d) = Some d /\ (digit_char d =? ".")%char = false /\
+  (digit_char d =? "-")%char = false /\ numc (digit_char d) = true.
+Proof.
+  intros H.
+  assert (C : d = 0 \/ d = 1 \/ d = 2 \/ d = 3 \/ d = 4 \/ d = 5 \/ d = 6 \/ d = 7 \/ d = 8 \/ d = 9) by lia.
+  repeat (destruct C as [->|C]; [vm_compute; repeat split; reflexivity|]). subst. vm_compute; repeat split; reflexivity.
+Qed.
+
+Lemma dig_range n w : 0 <= (n / 10 ^ Z.of_nat w) mod 10 <= 9.
+Proof. pose proof (Z.mod_pos_bound (n / 10 ^ Z.of_nat w) 10). lia. Qed.
+
+Lemma pow10_S w : 10 ^ Z.of_nat (S w) = 10 ^ Z.of_nat w * 10.
+Proof. rewrite Nat2Z.inj_succ, Z.pow_succ_r by lia. ring. Qed.
+
+Lemma pow10_pos w : 0 < 10 ^ Z.of_nat w.
+Proof. apply Z.pow_pos_nonneg; lia. Qed.
+
+Lemma horner_step n w :
+  n mod 10 ^ Z.of_nat (S w) = (n / 10 ^ Z.of_nat w) mod 10 * 10 ^ Z.of_nat w + n mod 10 ^ Z.of_nat w.
+Proof.
+  rewrite pow10_S. pose proof (pow10_pos w). rewrite Z.rem_mul_r by lia. ring.
+Qed.
+
+Lemma digits_w_numc w n : str_all numc (digits_w w n) = true.
+Proof.
+  induction w; cbn [digits_w str_all]; [reflexivity|].
+  destruct (digit_char_spec _ (dig_range n w)) as (_ & _ & _ & ->). exact IHw.
+Qed.
+
+(* the w digits, read back after a "." *)
+Lemma parse_frac_digits w : forall n acc k,
+  parse_frac (digits_w w n) acc k true = Some (acc * 10 ^ Z.of_nat w + n mod 10 ^ Z.of_nat w, (k + w)%nat).
+Proof.
+  induction w; intros n acc k.
+  - cbn [digits_w parse_frac]. change (10 ^ Z.of_nat 0) with 1. rewrite Z.mod_1_r. f_equal. f_equal; [ring|lia].
+  - cbn [digits_w parse_frac]. destruct (digit_char_spec _ (dig_range n w)) as (-> & _).
+    rewrite IHw, horner_step, pow10_S. f_equal. f_equal; [ring|lia].
+Qed.
+
+(* the w digits, read back before the "." *)
+Lemma parse_int_digits w : forall n acc seen r,
+  parse_int (digits_w w n ++ r) acc seen =
+  parse_int r (acc * 10 ^ Z.of_nat w + n mod 10 ^ Z.of_nat w) (seen || negb (w =? 0)%nat).
+Proof.
+  induction w; intros n acc seen r.
+  - cbn [digits_w append Nat.eqb negb]. change (10 ^ Z.of_nat 0) with 1. rewrite Z.mod_1_r, orb_false_r.
+    f_equal. ring.
+  - cbn [digits_w append parse_int Nat.eqb negb]. destruct (digit_char_spec _ (dig_range n w)) as (-> & -> & _).
+    rewrite IHw, horner_step, pow10_S, orb_true_r. cbn [orb]. f_equal. ring.
+Qed.
+
+Lemma ndigits_aux_bound fuel : forall n, 0 <= n < 2 ^ Z.of_nat fuel -> n < 10 ^ Z.of_nat (ndigits_aux fuel n).
+Proof.
+  induction fuel; intros n Hn.
+  - change (2 ^ Z.of_nat 0) with 1 in Hn. cbn [ndigits_aux]. change (10 ^ Z.of_nat 1) with 10. lia.
+  - cbn [ndigits_aux]. destruct (n <? 10) eqn:E.
+    + apply Z.ltb_lt in E. change (10 ^ Z.of_nat 1) with 10. lia.
+    + apply Z.ltb_ge in E. rewrite Nat2Z.inj_succ, Z.pow_succ_r in Hn by lia.
+      assert (0 < 2 ^ Z.of_nat fuel) by (apply Z.pow_pos_nonneg; lia).
+      assert (H1 : 0 <= n / 10 < 2 ^ Z.of_nat fuel).
+      { split; [apply Z.div_pos; lia|apply Z.div_lt_upper_bound; lia]. }
+      specialize (IHfuel _ H1). rewrite pow10_S.
+      pose proof (Z.div_mod n 10). pose proof (Z.mod_pos_bound n 10). lia.
+Qed.
+
+Lemma ndigits_bound n : 0 <= n -> n < 10 ^ Z.of_nat (ndigits n).
+Proof.
+  intros Hn. unfold ndigits. apply ndigits_aux_bound. split; [lia|].
+  rewrite Nat2Z.inj_succ, Z2Nat.id by apply Z.log2_nonneg.
+  destruct (Z.eq_dec n 0) as [->|]; [reflexivity|]. apply Z.log2_spec. lia.
+Qed.
+
+Lemma ndigits_S n : exists k, ndigits n = S k.
+Proof. unfold ndigits. cbn [ndigits_aux]. destruct (n <? 10); eauto. Qed.
+
+(* "%d" read back: the digits of dec n denote n *)
+Lemma dec_parse n acc seen r : 0 <= n ->
+  parse_int (dec n ++ r) acc seen = parse_int r (acc * 10 ^ Z.of_nat (ndigits n) + n) true.
+Proof.
+  intros Hn. unfold dec. rewrite parse_int_digits.
+  rewrite Z.mod_small by (split; [lia|apply ndigits_bound; lia]).
+  destruct (ndigits_S n) as [k ->]. cbn [Nat.eqb negb]. rewrite orb_true_r. reflexivity.
+Qed.
+
+Lemma dec_head n : exists c r, dec n = String c r /\ (c =? "-")%char = false.
+Proof.
+  unfold dec. destruct (ndigits_S n) as [k ->]. cbn [digits_w]. eexists _, _. split; [reflexivity|].
+  apply (digit_char_spec _ (dig_range n k)).
+Qed.
+
+Lemma dec_numc n : str_all numc (dec n) = true.
+Proof. apply digits_w_numc. Qed.
+
+(* the count line denotes its count *)
+Lemma dec_value n : 0 <= n -> parse_field (dec n) = Some (false, n, 0%nat).
+Proof.
+  intros Hn. destruct (dec_head n) as (c & r & E & Hc).
+  assert (P : parse_int (dec n) 0 false = Some (n, 0%nat)).
+  { replace (dec n) with (dec n ++ "")%string by (clear; induction (dec n); cbn; congruence).
+    rewrite dec_parse by lia. cbn [parse_int]. rewrite Z.mul_0_l, Z.add_0_l. reflexivity. }
+  unfold parse_field. rewrite E, Hc, <- E, P. reflexivity.
+Qed.
+
+Lemma render12_numc s N : str_all numc (render12 s N) = true.
+Proof.
+  unfold render12. rewrite !str_all_app, dec_numc, digits_w_numc. destruct s; reflexivity.
+Qed.
+
+Lemma render12_nonempty s N : nonempty (render12 s N) = true.
+Proof.
+  unfold render12. destruct s; [reflexivity|]. cbn [append].
+  destruct (dec_head (N / 10 ^ 12)) as (c & r & -> & _). reflexivity.
+Qed.
+
+(* string-level round trip of one number: the reader recovers exactly the
+   sign and the integer the writer printed, with 12 fractional digits *)
+Theorem parse_field_render12 s N : 0 <= N -> parse_field (render12 s N) = Some (s, N, 12%nat).
+Proof.
+  intros HN. unfold render12.
+  assert (HI : 0 <= N / 10 ^ 12) by (apply Z.div_pos; lia).
+  assert (P : parse_int (dec (N / 10 ^ 12) ++ String "." (digits_w 12 (N mod 10 ^ 12))) 0 false = Some (N, 12%nat)).
+  { rewrite dec_parse by lia. cbn [parse_int]. change ("." =? ".")%char with true. cbv iota.
+    rewrite parse_frac_digits. change (10 ^ Z.of_nat 12) with (10 ^ 12).
+    rewrite Z.mod_mod by lia. f_equal. f_equal. pose proof (Z.div_mod N (10 ^ 12)). lia. }
+  destruct s.
+  - cbn [append parse_field]. change ("-" =? "-")%char with true. cbv iota. rewrite P. reflexivity.
+  - cbn [append]. destruct (dec_head (N / 10 ^ 12)) as (c & r & E & Hc).
+    unfold parse_field. rewrite E in *. cbn [append] in *. rewrite Hc, P. reflexivity.
+Qed.
+
+(* ------------------------------------------------------------------ *)
+(* lines                                                               *)
+(* ------------------------------------------------------------------ *)
+
+Lemma split_lines_line l rest : str_all nonl l = true ->
+  split_lines (l ++ String nl rest) = l :: split_lines rest.
+Proof.
+  induction l; cbn [append split_lines str_all]; intros H.
+  - rewrite Ascii.eqb_refl. reflexivity.
+  - apply andb_true_iff in H as [H1 H2]. unfold nonl in H1. apply negb_true_iff in H1.
+    rewrite H1, (IHl H2). reflexivity.
+Qed.
+
+(* the text of one data row, without its newline *)
+Definition rowtext (p : dyadic * dyadic) : string := (fmt12 (fst p) ++ " " ++ fmt12 (snd p))%string.
+
+Lemma row_rowtext p : row p = (rowtext p ++ String nl "")%string.
+Proof. unfold row, rowtext. rewrite !app_assoc_s. reflexivity. Qed.
+
+Lemma rowtext_linec p : str_all linec (rowtext p) = true.
+Proof.
+  unfold rowtext, fmt12. rewrite !str_all_app.
+  assert (L : forall s N, str_all linec (render12 s N) = true).
+  { intros. apply (str_all_impl numc); [|apply render12_numc]. intros c H. unfold linec. rewrite H. reflexivity. }
+  rewrite !L. reflexivity.
+Qed.
+
+Lemma split_lines_rows ps : split_lines (cat_all (map row ps)) = map rowtext ps.
+Proof.
+  induction ps as [|p ps IH]; [reflexivity|]. cbn [map cat_all].
+  rewrite row_rowtext, app_assoc_s. cbn [append]. rewrite split_lines_line, IH; [reflexivity|].
+  apply (str_all_impl linec); [|apply rowtext_linec]. intros c H. apply (linec_props c H).
+Qed.
+
+(* The lines of a written file: the count of x values followed by a space, the
+   comment line, then one line per zipped pair, and nothing else. *)
+Theorem file_lines xs ys :
+  split_lines (write_file xs ys) =
+    (dec (Z.of_nat (List.length xs)) ++ " ")%string :: "# Comment line"%string :: map rowtext (combine xs ys).
+Proof.
+  unfold write_file. rewrite <- app_assoc_s. rewrite split_lines_line.
+  - f_equal. rewrite split_lines_line; [|reflexivity]. f_equal. apply split_lines_rows.
+  - rewrite str_all_app. rewrite (str_all_impl numc nonl); [reflexivity| |apply dec_numc].
+    intros c H. apply (numc_props c H).
+Qed.
+
+(* header_count_eq_rows.  PyStoG writes len(x) in the header and zip(x, y)
+   rows; they agree when x is not longer than y (the write_out_* callers pass a master grid and
+   a curve computed on it).  The first line then is the decimal of min(|xs|,|ys|) and a
+   space, the second the comment, then exactly that many rows. *)
+Theorem header_count_eq_rows xs ys : (List.length xs <= List.length ys)%nat ->
+  let n := Nat.min (List.length xs) (List.length ys) in
+  exists rows,
+    split_lines (write_file xs ys) = (dec (Z.of_nat n) ++ " ")%string :: "# Comment line"%string :: rows /\
+    List.length rows = n /\
+    rows = map rowtext (combine xs ys) /\
+    parse_field (dec (Z.of_nat n)) = Some (false, Z.of_nat n, 0%nat).
+Proof.
+  intros Hle n. exists (map rowtext (combine xs ys)).
+  assert (En : n = List.length xs) by (unfold n; lia).
+  split; [rewrite En; apply file_lines|]. split; [rewrite map_length, combine_length; reflexivity|].
+  split; [reflexivity|]. apply dec_value. lia.
+Qed.
+
+(* when x is longer than y the header count is NOT the number of rows *)
+Example header_count_mismatch :
+  let x := mkd false 1 0 in
+  split_lines (write_file [x; x] [x]) = ["2 "; "# Comment line"; "1.000000000000 1.000000000000"]%string.
+Proof. vm_compute. reflexivity. Qed.
+
+(* ------------------------------------------------------------------ *)
+(* fields and rows                                                     *)
+(* ------------------------------------------------------------------ *)
+
+Lemma strip_comment_id s : str_all nohash s = true -> strip_comment s = s.
+Proof.
+  induction s; cbn [strip_comment str_all]; [reflexivity|]. intros H.
+  apply andb_true_iff in H as [H1 H2]. unfold nohash in H1. apply negb_true_iff in H1.
+  rewrite H1, (IHs H2). reflexivity.
+Qed.
+
+Lemma split_sp_word w : str_all nosp w = true -> split_sp w = [w].
+Proof.
+  induction w; cbn [split_sp str_all]; [reflexivity|]. intros H.
+  apply andb_true_iff in H as [H1 H2]. unfold nosp in H1. apply negb_true_iff in H1.
+  rewrite H1, (IHw H2). reflexivity.
+Qed.
+
+Lemma split_sp_cons w rest : str_all nosp w = true ->
+  split_sp (w ++ String " " rest) = w :: split_sp rest.
+Proof.
+  induction w; cbn [append split_sp str_all]; intros H.
+  - reflexivity.
+  - apply andb_true_iff in H as [H1 H2]. unfold nosp in H1. apply negb_true_iff in H1.
+    rewrite H1, (IHw H2). reflexivity.
+Qed.
+
+Definition toks (p : dyadic * dyadic) : list string := [fmt12 (fst p); fmt12 (snd p)].
+
+Lemma fields_row p : fields (strip_comment (rowtext p)) = toks p.
+Proof.
+  rewrite strip_comment_id.
+  2:{ apply (str_all_impl linec); [|apply rowtext_linec]. intros c H. apply (linec_props c H). }
+  unfold rowtext, fields, fmt12. cbn [append].
+  assert (S : forall s N, str_all nosp (render12 s N) = true).
+  { intros. apply (str_all_impl numc); [|apply render12_numc]. intros c H. apply (numc_props c H). }
+  rewrite split_sp_cons, split_sp_word by apply S.
+  cbn [filter]. rewrite !render12_nonempty. reflexivity.
+Qed.
+
+Lemma token_rows_written xs ys : token_rows (write_file xs ys) = map toks (combine xs ys).
+Proof.
+  unfold token_rows. rewrite file_lines. cbn [skipn]. rewrite map_map.
+  induction (combine xs ys) as [|p ps IH]; [reflexivity|].
+  cbn [map filter]. rewrite fields_row. cbn [toks is_nil negb]. f_equal. exact IH.
+Qed.
+
+(* what the reader gets for one value: sign, printed integer, 12 digits *)
+Definition enc (d : dyadic) : decnum := (d_neg d, to12 d, 12%nat).
+Definition wf2 (p : dyadic * dyadic) : Prop := wf (fst p) /\ wf (snd p).
+
+Lemma parse_toks p : wf2 p ->
+  all_some (map parse_field (toks p)) = Some [enc (fst p); enc (snd p)].
+Proof.
+  intros [H1 H2]. unfold toks, fmt12. cbn [map all_some].
+  rewrite !parse_field_render12 by (apply to12_nonneg; assumption). reflexivity.
+Qed.
+
+Lemma parse_rows_written xs ys : Forall wf2 (combine xs ys) ->
+  parse_rows (write_file xs ys) = Some (map (fun p => [enc (fst p); enc (snd p)]) (combine xs ys)).
+Proof.
+  unfold parse_rows. rewrite token_rows_written. rewrite map_map.
+  induction (combine xs ys) as [|p ps IH]; intros H; [reflexivity|].
+  inversion H as [|? ? H1 H3]; subst.
+  change (map (fun x => all_some (map parse_field (toks x))) (p :: ps))
+    with (all_some (map parse_field (toks p)) :: map (fun x => all_some (map parse_field (toks x))) ps).
+  rewrite (parse_toks p H1). cbn [all_some]. rewrite (IH H3). reflexivity.
+Qed.
+
+Lemma wf2_combine xs ys : Forall wf xs -> Forall wf ys -> Forall wf2 (combine xs ys).
+Proof.
+  intros Hx Hy. apply Forall_forall. intros [a b] Hin. split; cbn.
+  - eapply Forall_forall; [exact Hx|]. eapply in_combine_l; eauto.
+  - eapply Forall_forall; [exact Hy|]. eapply in_combine_r; eauto.
+Qed.
+
+(* read_write_shape: reading a written file yields two columns with one entry
+   per written row, and each entry is exactly (sign, printed integer, 12). *)
+Theorem read_write_shape xs ys : Forall wf xs -> Forall wf ys -> combine xs ys <> [] ->
+  read_file (write_file xs ys) =
+    Some (map (fun p => enc (fst p)) (combine xs ys), map (fun p => enc (snd p)) (combine xs ys)).
+Proof.
+  intros Hx Hy Hne. unfold read_file. rewrite parse_rows_written by (apply wf2_combine; assumption).
+  destruct (combine xs ys) as [|p ps]; [congruence|]. cbn [map List.length Nat.leb].
+  assert (F : forallb (fun r : list decnum => (List.length r =? 2)%nat)
+                      (map (fun p => [enc (fst p); enc (snd p)]) ps) = true).
+  { clear. induction ps; cbn; auto. }
+  rewrite F. cbn [andb nth]. rewrite !map_map. reflexivity.
+Qed.
+
+Corollary read_write_lengths xs ys cx cy :
+  read_file (write_file xs ys) = Some (cx, cy) -> Forall wf xs -> Forall wf ys -> combine xs ys <> [] ->
+  List.length cx = Nat.min (List.length xs) (List.length ys) /\
+  List.length cy = Nat.min (List.length xs) (List.length ys).
+Proof.
+  intros E Hx Hy Hne. rewrite (read_write_shape xs ys Hx Hy Hne) in E. inversion E; subst.
+  rewrite !map_length, combine_length. auto.
+Qed.
+
+(* an empty curve is written as a header only; the reader (like read_dataset,
+   which raises RuntimeError on loadtxt's empty array) rejects it *)
+Lemma read_empty ys : read_file (write_file [] ys) = None.
+Proof. reflexivity. Qed.
+
+(* the values: every written pair comes back as (reread x, reread y) *)
+Theorem read_values_written xs ys : Forall wf xs -> Forall wf ys -> combine xs ys <> [] ->
+  read_values (write_file xs ys) =
+    Some (map (fun p => reread (fst p)) (combine xs ys), map (fun p => reread (snd p)) (combine xs ys)).
+Proof.
+  intros Hx Hy Hne. unfold read_values. rewrite (read_write_shape xs ys Hx Hy Hne).
+  cbn [option_map fst snd]. rewrite !map_map. reflexivity.
+Qed.
+
+Lemma combine_fst {A B} (xs : list A) (ys : list B) : List.length xs = List.length ys ->
+  map fst (combine xs ys) = xs /\ map snd (combine xs ys) = ys.
+Proof.
+  revert ys. induction xs as [|x xs IH]; destruct ys as [|y ys]; cbn; intros H; try discriminate; auto.
+  destruct (IH ys) as [-> ->]; [lia|]. auto.
+Qed.
+
+Corollary read_values_same_length xs ys : Forall wf xs -> Forall wf ys ->
+  List.length xs = List.length ys -> xs <> [] ->
+  read_values (write_file xs ys) = Some (map reread xs, map reread ys).
+Proof.
+  intros Hx Hy Hl Hne. rewrite read_values_written; auto.
+  - destruct (combine_fst xs ys Hl) as [E1 E2].
+    rewrite <- (map_map fst reread), <- (map_map snd reread), E1, E2. reflexivity.
+  - destruct xs, ys; cbn in *; congruence.
+Qed.
+
+(* ================================================================== *)
+(* 6. is_nearest53 really means "nearest double"                       *)
+(* ================================================================== *)
+
+(* No 53-bit value m2 * 2^e2 (any exponent) is closer to N/10^k than the
+   result m * 2^e.  Scaled by 10^k * 2^K for a common scale K:
+      | m 2^(e+K) 10^k - N 2^K |  <=  | m2 2^(e2+K) 10^k - N 2^K |. *)
+Theorem is_nearest53_optimal N k m e m2 e2 K :
+  is_nearest53 N k m e -> 0 <= m2 < 2 ^ 53 -> 0 <= K -> 0 <= e + K -> 0 <= e2 + K ->
+  Z.abs (m * 2 ^ (e + K) * 10 ^ Z.of_nat k - N * 2 ^ K) <=
+  Z.abs (m2 * 2 ^ (e2 + K) * 10 ^ Z.of_nat k - N * 2 ^ K).
+Proof.
+  intros (Hm & Hb & _ & Hq) Hm2 HK HeK He2K.
+  destruct (numden_scaled N k e K HK HeK) as (c & Hc & Hn & Hd).
+  set (T := 10 ^ Z.of_nat k) in *. set (W := N * 2 ^ K) in *.
+  assert (HT : 0 < T) by (apply Z.pow_pos_nonneg; lia).
+  assert (HA : 0 < 2 ^ (e + K)) by (apply Z.pow_pos_nonneg; lia).
+  assert (HA2 : 0 < 2 ^ (e2 + K)) by (apply Z.pow_pos_nonneg; lia).
+  set (A := 2 ^ (e + K)) in *. set (A2 := 2 ^ (e2 + K)) in *.
+  assert (HX : 0 < T * A) by (apply Z.mul_pos_pos; lia).
+  pose proof (den_pos k e) as Hde.
+  assert (Hb' : 2 * Z.abs (m * (T * A) - W) <= T * A).
+  { rewrite <- Hn, <- Hd. replace (m * (den k e * c) - num N e * c) with ((m * den k e - num N e) * c) by ring.
+    rewrite Z.abs_mul, (Z.abs_eq c) by lia. rewrite Z.mul_assoc. apply Z.mul_le_mono_nonneg_r; lia. }
+  assert (Hq' : m = 2 ^ 52 -> W < m * (T * A) -> 4 * (m * (T * A) - W) <= T * A).
+  { intros E L. rewrite <- Hn, <- Hd in *.
+    assert (L' : num N e < m * den k e).
+    { apply (Z.mul_lt_mono_pos_r c); [lia|]. rewrite <- Z.mul_assoc. exact L. }
+    specialize (Hq E L').
+    replace (4 * (m * (den k e * c) - num N e * c)) with (4 * (m * den k e - num N e) * c) by ring.
+    apply Z.mul_le_mono_nonneg_r; lia. }
+  replace (m * A * T) with (m * (T * A)) by ring.
+  assert (Hlow : 2 ^ 52 * (T * A) <= m * (T * A)) by (apply Z.mul_le_mono_nonneg_r; lia).
+  destruct (Z_le_gt_dec e e2) as [Hle|Hgt].
+  - (* the candidate is a multiple n of the result's ulp *)
+    assert (EA : A2 = 2 ^ (e2 - e) * A).
+    { unfold A, A2. rewrite <- Z.pow_add_r by lia. f_equal. lia. }
+    replace (m2 * A2 * T) with (m2 * 2 ^ (e2 - e) * (T * A)) by (rewrite EA; ring).
+    set (n := m2 * 2 ^ (e2 - e)).
+    destruct (Z.eq_dec n m) as [->|Hne]; [lia|].
+    assert (C : n <= m - 1 \/ m + 1 <= n) by lia. destruct C as [C|C].
+    + assert (n * (T * A) <= (m - 1) * (T * A)) by (apply Z.mul_le_mono_nonneg_r; lia). lia.
+    + assert ((m + 1) * (T * A) <= n * (T * A)) by (apply Z.mul_le_mono_nonneg_r; lia). lia.
+  - (* the candidate lies in a lower binade: it is at most (2^53 - 1)/2 ulps *)
+    assert (EA : 2 * A2 <= A).
+    { unfold A, A2. rewrite <- pow2_plus1 by lia. apply Z.pow_le_mono_r; lia. }
+    assert (H1 : m2 * (T * A2) <= (2 ^ 53 - 1) * (T * A2)).
+    { apply Z.mul_le_mono_nonneg_r; [|lia]. apply Z.mul_nonneg_nonneg; lia. }
+    assert (H2 : T * (2 * A2) <= T * A) by (apply Z.mul_le_mono_nonneg_l; lia).
+    replace (m2 * A2 * T) with (m2 * (T * A2)) by ring.
+    destruct (Z_le_gt_dec (m * (T * A)) W) as [Hup|Hdown]; [lia|].
+    destruct (Z.eq_dec m (2 ^ 52)) as [E|E].
+    + specialize (Hq' E ltac:(lia)). lia.
+    + assert ((2 ^ 52 + 1) * (T * A) <= m * (T * A)) by (apply Z.mul_le_mono_nonneg_r; lia). lia.
+Qed.
+
+(* ================================================================== *)
+(* 7. the statements are not vacuous                                   *)
+(* ================================================================== *)
+
+(* 0.1 = 0x1.999999999999ap-4 *)
+Definition d_tenth : dyadic := mkd false 7205759403792794 (-56).
+(* 123456.789 = 0x1.e240c9fbe76c9p+16 *)
+Definition d_big : dyadic := mkd true 8483885939586761 (-36).
+
+Example fmt12_error_nonvacuous :
+  d_e d_tenth < 0 /\ to12 d_tenth = 100000000000 /\ fmt12 d_tenth = "0.100000000000"%string /\
+  fmt12 d_big = "-123456.789000000004"%string /\ fmt12 (mkd true 1 (-80)) = "-0.000000000000"%string.
+Proof. vm_compute. repeat split; congruence. Qed.
+
+Example nearest53_correct_nonvacuous :
+  nearest53 (false, 1, 1%nat) = d_tenth /\ is_nearest53 1 1 (d_m d_tenth) (d_e d_tenth).
+Proof.
+  split; [vm_compute; reflexivity|].
+  replace (d_m d_tenth) with (d_m (nearest53 (false, 1, 1%nat))) by (vm_compute; reflexivity).
+  replace (d_e d_tenth) with (d_e (nearest53 (false, 1, 1%nat))) by (vm_compute; reflexivity).
+  apply nearest53_correct. lia.
+Qed.
+
+(* ties go to the even mantissa: 2^53 + 1 -> 2^53, 2^53 + 3 -> 2^53 + 4 *)
+Example nearest53_ties_even :
+  nearest53 (false, 9007199254740993, 0%nat) = mkd false 4503599627370496 1 /\
+  nearest53 (false, 9007199254740995, 0%nat) = mkd false 4503599627370498 1.
+Proof. vm_compute. split; reflexivity. Qed.
+
+Example roundtrip_bound_nonvacuous :
+  wf d_tenth /\ scale_ok 56 d_tenth (reread d_tenth) /\ reread d_tenth = d_tenth.
+Proof. vm_compute. repeat split; congruence. Qed.
+
+Example roundtrip_exact_when_coarse_nonvacuous : norm53 d_big /\ - 39 <= d_e d_big.
+Proof. vm_compute. repeat split; congruence. Qed.
+
+(* 123.45 = 0x1.edccccccccccdp+6, a fine-spacing grid value *)
+Example reingest_grid_exact_nonvacuous :
+  nearest53 (false, 12345, 2%nat) = mkd false 8687021468732621 (-46) /\
+  to12 (mkd false 8687021468732621 (-46)) = 12345 * 10 ^ 10.
+Proof. vm_compute. split; reflexivity. Qed.
+
+Example read_write_shape_nonvacuous :
+  Forall wf [d_tenth; d_big] /\ Forall wf [d_big; witness1] /\ combine [d_tenth; d_big] [d_big; witness1] <> [] /\
+  write_file [d_tenth; d_big] [d_big; witness1] =
+    String.concat (String nl "")
+      ["2 "; "# Comment line"; "0.100000000000 -123456.789000000004";
+       "-123456.789000000004 1.623347347958"; ""]%string.
+Proof.
+  split; [|split; [|split]].
+  - repeat constructor; vm_compute; congruence.
+  - repeat constructor; vm_compute; congruence.
+  - discriminate.
+  - vm_compute. reflexivity.
+Qed.
+
+Example header_count_eq_rows_nonvacuous :
+  (List.length [d_tenth; d_big] <= List.length [d_big; witness1; d_tenth])%nat.
+Proof. cbn. lia. Qed.
+
+(* ================================================================== *)
+(* 8. packaged statements for props/C18.v                              *)
+(* ================================================================== *)
+
+(* float(text): sign kept, normalised 53-bit mantissa, within half an ulp,
+   ties to even, and no other 53-bit value (any exponent) is closer *)
+Theorem parse_is_nearest_double s N k : 0 < N ->
+  let r := nearest53 (s, N, k) in
+  d_neg r = s /\ 2 ^ 52 <= d_m r < 2 ^ 53 /\
+  2 * Z.abs (d_m r * den k (d_e r) - num N (d_e r)) <= den k (d_e r) /\
+  (2 * Z.abs (d_m r * den k (d_e r) - num N (d_e r)) = den k (d_e r) -> Z.even (d_m r) = true) /\
+  (forall m2 e2 K, 0 <= m2 < 2 ^ 53 -> 0 <= K -> 0 <= d_e r + K -> 0 <= e2 + K ->
+     Z.abs (d_m r * 2 ^ (d_e r + K) * 10 ^ Z.of_nat k - N * 2 ^ K) <=
+     Z.abs (m2 * 2 ^ (e2 + K) * 10 ^ Z.of_nat k - N * 2 ^ K)).
+Proof.
+  intros HN r. destruct (nearest53_correct s N k HN) as [Hs Hn]. fold r in Hs, Hn.
+  split; [exact Hs|]. destruct Hn as (A & B & C & D).
+  split; [exact A|]. split; [exact B|]. split; [exact C|].
+  intros m2 e2 K H1 H2 H3 H4. apply is_nearest53_optimal; auto. unfold is_nearest53; auto.
+Qed.
+
+(* |x| <= 10^6 (at a common scale) bounds the printed integer *)
+Lemma to12_le_of_mag x K : 0 <= K -> 0 <= d_e x + K -> mag K x <= 10 ^ 6 * 2 ^ K -> to12 x <= 10 ^ 18.
+Proof.
+  intros HK HeK Hmag. pose proof (to12_scaled x K HK HeK) as Hp. unfold mag in Hmag.
+  assert (H2 : 0 < 2 ^ K) by (apply Z.pow_pos_nonneg; lia).
+  assert (~ (10 ^ 18 + 1 <= to12 x)); [|lia]. intro H.
+  assert ((10 ^ 18 + 1) * 2 ^ K <= to12 x * 2 ^ K) by (apply Z.mul_le_mono_nonneg_r; lia). lia.
+Qed.
+
+Theorem roundtrip_bound_b64 x K : wf x -> scale_ok K x (reread x) -> mag K x <= 10 ^ 6 * 2 ^ K ->
+  d_neg (reread x) = d_neg x /\
+  2 * 10 ^ 12 * Z.abs (mag K (reread x) - mag K x) <= 2 ^ K + 10 ^ 12 * 2 ^ (d_e (reread x) + K) /\
+  (d_m (reread x) = 0 \/ (norm53 (reread x) /\ - 1074 <= d_e (reread x) <= 971)).
+Proof.
+  intros H HK Hmag. destruct (roundtrip_bound x K H HK) as [A B]. split; [exact A|]. split; [exact B|].
+  apply reread_is_binary64; [exact H|]. destruct HK as (K0 & K1 & _).
+  pose proof (to12_le_of_mag x K K0 K1 Hmag).
+  assert (10 ^ 18 < 2 ^ 1000) by (vm_compute; reflexivity). lia.
 Qed.
